@@ -38,6 +38,10 @@ def run_job(job):
             names = rng.sample(NAMES, len(NAMES))
             sym2id, sigma, ops_sym, ops_num = {}, {}, [], []
             ni = 0
+            same = op.endswith('_same')         # u op u: both operands are ONE symbolic multivector
+            if same:
+                op = op[:-5]
+                keylists = keylists[:1]
             for oi, keys in enumerate(keylists):
                 vs, vn = [], []
                 for k in keys:
@@ -61,6 +65,9 @@ def run_job(job):
                 else:
                     ops_sym.append(MultiVector.fromkeysvalues(alg, tuple(keys), vs))
                 ops_num.append(MultiVector.fromkeysvalues(alg, tuple(keys), vn))
+            if same:
+                ops_sym.append(ops_sym[0])
+                ops_num.append(ops_num[0])
             raised, rs = '', None
             try:
                 rs = K.apply_op(op, ops_sym, params)
